@@ -10,6 +10,16 @@ NOT_APPLICABLE = {
 for _p in ["C%02d" % i for i in range(1, 21)]:
     NOT_APPLICABLE.setdefault(_p, PENDING)
 CLAIMED = {
+    "C02": {
+        "text": "Decides structural necessary conditions of package validity for all workbooks: every part-name template the writer can create receives, through the extracted override-rule chain or Default tables, the content type the standard assigns (24 templates); every internal relationship target resolves to a part template the writer creates (dead branches proven by never-assigned fields); the ordered id-consuming element sequence of sheet/workbook XML equals the relationship sequence of the matching rels writer in kind, guard, loop and increment; id-consuming loops iterate ordered collections; emitted child elements follow CT_Worksheet/CT_Workbook/CT_Stylesheet order; rows come from a list sorted by row number and cells from the ordered index; attributes and text reach the sink only through escaping wrappers; <t> carries xml:space under a whitespace test; sheet additions/renames are dominated by the uniqueness check. Does not decide what an independent reader decodes.",
+        "note": NOTE,
+        "technique": "table agreement from typed HIR (part templates, rule chain, relationship targets, rId event sequences, element order) against spec tables; who-may-call; dominators",
+    },
+    "C06": {
+        "text": "Decides structural necessary conditions of annotation fidelity for all workbooks: hyperlink/drawing/table ids pair by an identical, ordered event sequence in the sheet and rels writers (C02.c/d); every attribute any live struct reads is written back (crate-wide symmetry, 413 attributes); every annotation element the sheet writer emits has a reader arm for the event variant it is written in; the <sheet> attributes written are the ones read and both sides walk the collection in order; sheet adds/renames pass the uniqueness check. Does not decide comment/VML re-join or active-tab arithmetic.",
+        "note": NOTE,
+        "technique": "rId event-sequence agreement, reader/writer name tables and dispatch tables from typed HIR; dominators",
+    },
     "C03": {
         "text": "Decides structural necessary conditions of faithful reading for all files: attribute bytes become model strings only through the central extractor with exactly one unescape and no caller unescapes again (who-may-access + taint); shared-formula children are produced by the relative-translation kernel with per-axis signed (child - anchor) offsets, never by the insert kernels; every ST_CellType value has a reader arm (t=\"d\" is a listed finding) and no reader-side value setter can clear the formula read from the same element. Does not decide agreement with an independent decoder on concrete files.",
         "note": NOTE,
